@@ -522,7 +522,28 @@ def check_wrappers(case, rec):
                     results.append(np.concatenate([np.ravel(r[1]), np.ravel(r[2]).astype(float)]))
                 else:
                     fld = rs.standard_normal((n, 4))
-                    results.append(np.asarray(lib(gs.vario_estimate_axis, fld, "x", _tags=tags)))
+                    r_ax = np.asarray(lib(gs.vario_estimate_axis, fld, "x", _tags=tags))
+                    est = kbuild.load("estimator", "installed")
+                    require(np.allclose(r_ax, np.asarray(est.structured(fld, "m", None)), rtol=1e-13, atol=0, equal_nan=True),
+                            "vario_axis: vario_estimate_axis differs from the structured kernel on the same array", dict(tags, kind="wrapper_vs_kernel"))
+                    # sparse data: grid lines with 0, 1, 2, ... valid values reach the masked kernel unchanged
+                    msk = rs.rand(n, 4) < [0.3, 0.6, 0.85][case["seed"] % 3]
+                    how = case["seed"] // 3 % 3
+                    if how == 0:
+                        arg, kw2 = np.ma.array(fld, mask=msk), {}
+                    elif how == 1:
+                        arg, kw2 = np.where(msk, np.nan, fld), {}
+                    else:
+                        arg, kw2 = np.where(msk, -999.0, fld), {"no_data": -999.0}
+                    r_ma = np.asarray(lib(gs.vario_estimate_axis, arg, "x", _tags=tags, **kw2))
+                    if msk.any():
+                        k_ma = np.asarray(est.ma_structured(np.ascontiguousarray(fld), np.ascontiguousarray(msk).view(np.uint8) if msk.dtype != np.uint8 else msk, "m", None))
+                    else:
+                        k_ma = np.asarray(est.structured(fld, "m", None))
+                    require(np.allclose(r_ma, k_ma, rtol=1e-13, atol=0, equal_nan=True),
+                            f"vario_axis: vario_estimate_axis with missing values differs from the masked kernel on the same arrays ({r_ma.tolist()} vs {k_ma.tolist()})",
+                            dict(tags, kind="wrapper_vs_kernel"))
+                    results.append(np.concatenate([r_ax, r_ma]))
     finally:
         gs.config.NUM_THREADS = old
     require(results[0].tobytes() == results[1].tobytes(), f"{w}: result depends on config.NUM_THREADS={case['threads']}", dict(tags, kind="wrapper_threads"))
